@@ -32,7 +32,67 @@ def r_inverted(rep, prog):
               "the start offset and FileSlice::slice panics (with the sstable term dictionary a RangeQuery with swapped bounds panics instead of matching nothing)", site=site(b, sl[0]))
 
 
+def r4(rep, prog):
+    """the automaton state stack mirrors the key, key by key"""
+    from ..mergecov import Aliases
+    from ..rules import natural_loop
+    R = "C15-R4"
+    rep.rule(R, "the streamer's automaton state stack mirrors its key: Streamer keeps `key` (the current key, rebuilt from the shared prefix and the suffix of each delta) and `states` (states[i] = automaton state after key[..i]) as parallel vectors. In Streamer::advance, every iteration that cuts `self.key` back to the common prefix also cuts `self.states` (Vec::truncate on both), and every iteration that appends the suffix to the key also runs the loop that pushes one state per suffix byte, before the iteration ends (next DeltaReader::advance or a return). A `continue` for keys below the lower bound that skips the state update leaves the stack describing another key: the next key resumes the automaton from a wrong state and matching keys are dropped")
+    fid = "tantivy_sstable::streamer::Streamer::<'_, TSSTable, A>::advance"
+    b = get_body(rep, prog, R, fid)
+    if b is None:
+        return
+    al = Aliases(b, {1: "self"})
+
+    def on(field, pat):
+        out = []
+        for bi, t in b.calls():
+            f = t.get("f") or ""
+            if not f.endswith(pat) or not t.get("args"):
+                continue
+            from ..model import op_place
+            r = al.resolve(op_place(t["args"][0]))
+            if r and r[0] == "self" and r[1][:1] == (("f", field),):
+                out.append(bi)
+        return out
+    heads = [bi for bi, t in b.calls() if (t.get("f") or "").endswith("DeltaReader::<TValueReader>::advance")]
+    k_tr, s_tr = on("key", "Vec::<T, A>::truncate"), on("states", "Vec::<T, A>::truncate")
+    k_ex, s_pu = on("key", "Vec::<T, A>::extend_from_slice"), on("states", "Vec::<T, A>::push")
+    if not rep.check(len(heads) == 1 and k_tr and s_tr and k_ex and s_pu, R, "anchors in Streamer::advance", "delta advance %s, key.truncate %s, states.truncate %s, key.extend %s, states.push %s" % (heads, k_tr, s_tr, k_ex, s_pu),
+                     "cannot establish: Streamer::advance no longer has the expected mutations of self.key / self.states (delta advance %s, key.truncate %s, states.truncate %s, key.extend_from_slice %s, states.push %s)" % (heads, k_tr, s_tr, k_ex, s_pu), site=b.span):
+        return
+    H = heads[0]
+    ends = {H} | set(b.return_blocks())
+    gates_push = set(s_pu)
+    for c in s_pu:
+        for hb in b.normal_blocks():
+            lp = natural_loop(b, hb)
+            if lp and c in lp and H not in lp:
+                gates_push.add(hb)
+    for name, ks, gates, what in (("cut", k_tr, set(s_tr), "Vec::truncate on self.states"), ("append", k_ex, gates_push, "the loop that pushes one automaton state per suffix byte")):
+        for k in ks:
+            blocked = frozenset(gates)
+            # is this key mutation reachable in an iteration that has not passed the state update yet ...
+            pre = set()
+            for s0 in b.succ(H):
+                pre |= set(b.reachable((s0,), blocked=blocked | {H}))
+            if k not in pre:
+                rep.ok(R, "%s of self.key at bb%d comes after the state update" % (name, k), what, site=site(b, k))
+                continue
+            # ... and can the iteration then end without passing it?
+            post = set()
+            for s1 in b.succ(k):
+                post |= {s1} | set(b.reachable((s1,), blocked=blocked | {H}))
+            # reaching H itself: a successor edge into H
+            ends_hit = sorted(x for x in (post | {k}) if x in b.return_blocks() or H in b.succ(x)) if True else []
+            ends_hit = [x for x in ends_hit if x not in gates]
+            rep.check(not ends_hit, R, "%s of self.key at bb%d is mirrored on self.states before the iteration ends" % (name, k), what,
+                      "Streamer::advance can %s self.key and finish the iteration (next key or return) without %s: `states` then no longer holds the automaton states of the prefixes of `key`; the next key that shares a prefix "
+                      "with a skipped one resumes the automaton from the wrong state, and an automaton search combined with a lower bound silently drops matching keys" % ("cut back" if name == "cut" else "extend", what), site=site(b, k))
+
+
 def run(rep, prog, tier):
+    r4(rep, prog)
     rep.rule("C15-R1", "order is enforced in release builds: with debug assertions off, sstable::Writer::insert_key still contains a panic guard, controlled by a comparison with previous_key (common_prefix_len), that dominates the Ok exit; the fst builder's insert error is propagated")
     rep.rule("C15-R2", "the sstable version written by Writer::finish is accepted by SSTableIndex::open")
     rep.not_decided += ["lookup / stream / merge results (values)", "the guard is vacuous for the first key of a block because previous_key is cleared at a block flush (value-level observation)"]
